@@ -328,10 +328,12 @@ def run_dispatcher_history(R, wd, mb, bk, ops, shared):
 
 BEGIN = b'<!--XSUPERVISOR:BEGIN-->'
 END = b'<!--XSUPERVISOR:END-->'
-PHASES = ('normal', 'capture', 'partial_begin', 'partial_end')
+PHASES = ('normal', 'capture', 'partial_begin', 'partial_end', 'eof_held')
 PHASE_OPS = ('reopen', 'removelogs', 'rpc_clear', 'move_reopen', 'move_removelogs', 'move_rpc_clear', 'disp_reopen',
-             'disp_removelogs', 'move_disp_reopen', 'sigusr2', 'move_sigusr2', 'rpc_clear_all', 'move_rpc_clear_all',
-             'group_removelogs')
+             'disp_removelogs', 'move_disp_reopen', 'sigusr2', 'move_sigusr2', 'move_sigusr2_restarting',
+             'move_sigusr2_shutdown', 'rpc_clear_all', 'move_rpc_clear_all', 'group_removelogs', 'move_group_reopen')
+# after EOF only reopen-type operations make sense before the reap
+EOF_OPS = ('move_reopen', 'move_sigusr2', 'move_sigusr2_shutdown', 'move_group_reopen', 'move_disp_reopen', 'reopen')
 
 
 class _Recorder(object):
@@ -349,12 +351,14 @@ class _Recorder(object):
         pass
 
 
-def make_capture_rig(wd, mb, bk, tag='cap'):
-    """A real Subprocess whose stdout and stderr POutputDispatchers both have a log
-    file (separate directories) AND capture mode enabled."""
+def make_capture_rig(wd, mb, bk, syslog=False, tag='cap'):
+    """A real ProcessGroup / Subprocess whose stdout and stderr POutputDispatchers both have a log
+    file (separate directories) AND capture mode enabled (and, with `syslog`, a SyslogHandler
+    next to the file handler), under a real Supervisor and the real RPC namespace."""
     import shutil
-    from supervisor.options import ServerOptions, ProcessConfig
-    from supervisor.process import Subprocess
+    from supervisor.options import ServerOptions, ProcessConfig, ProcessGroupConfig
+    from supervisor.process import ProcessGroup
+    from supervisor.supervisord import Supervisor
     from supervisor.dispatchers import POutputDispatcher
     from supervisor import events, rpcinterface, states, loggers
     d = os.path.join(wd, tag)
@@ -374,28 +378,43 @@ def make_capture_rig(wd, mb, bk, tag='cap'):
     params = dict(
         name='p', uid=None, command='/bin/cat', directory=None, umask=None,
         priority=999, autostart=True, autorestart=False, startsecs=0, startretries=0,
-        stdout_logfile=bases['stdout'], stdout_capture_maxbytes=200, stdout_events_enabled=False, stdout_syslog=False,
+        stdout_logfile=bases['stdout'], stdout_capture_maxbytes=200, stdout_events_enabled=False, stdout_syslog=syslog,
         stdout_logfile_backups=bk, stdout_logfile_maxbytes=mb,
         stderr_logfile=bases['stderr'], stderr_capture_maxbytes=200,
         stderr_logfile_backups=bk, stderr_logfile_maxbytes=mb,
-        stderr_events_enabled=False, stderr_syslog=False,
+        stderr_events_enabled=False, stderr_syslog=syslog,
         stopsignal=15, stopwaitsecs=1, stopasgroup=False, killasgroup=False, exitcodes=(0,),
         redirect_stderr=False, environment=None, serverurl=None)
-    from supervisor.options import ProcessGroupConfig
-    from supervisor.process import ProcessGroup
-    from supervisor.supervisord import Supervisor
     group = ProcessGroup(ProcessGroupConfig(options, 'g', 999, [ProcessConfig(options, **params)]))
     proc = group.processes['p']
     proc.pid = 4242
+    from supervisor.states import ProcessStates
+    proc.state = ProcessStates.RUNNING
+    proc.laststart = 1
     proc.dispatchers = {5: POutputDispatcher(proc, events.ProcessCommunicationStdoutEvent, 5),
                         7: POutputDispatcher(proc, events.ProcessCommunicationStderrEvent, 7)}
     timeline = []
+    filehandlers = {}
     for fd, ch in ((5, 'stdout'), (7, 'stderr')):
+        nl = proc.dispatchers[fd].normallog
+        for h in nl.handlers:
+            if isinstance(h, loggers.SyslogHandler):
+                h._syslog = lambda msg: None                     # never talk to the real syslog
+        fh = [h for h in nl.handlers if isinstance(h, loggers.FileHandler)][0]
+        filehandlers[ch] = fh
+
+        def rm(orig=fh.remove, ch=ch):
+            orig()
+            timeline.append(('rm', ch))
+
+        def re_(orig=fh.reopen, ch=ch):
+            orig()
+            timeline.append(('r', ch))
+        fh.remove, fh.reopen = rm, re_                           # observe what really reaches the file handler
         h = loggers.StreamHandler(_Recorder(timeline, ch))
         h.setFormat('%(message)s')
-        h.setLevel(proc.dispatchers[fd].normallog.level)
-        proc.dispatchers[fd].normallog.addHandler(h)
-
+        h.setLevel(nl.level)
+        nl.handlers.insert(0, h)                                 # first: sees each message as logged
     sup = Supervisor(options)                      # the real daemon object: handle_signal() is driven directly
     sup.process_groups = {'g': group}
     pending = []
@@ -404,13 +423,23 @@ def make_capture_rig(wd, mb, bk, tag='cap'):
     iface = rpcinterface.SupervisorNamespaceRPCInterface(sup)
     iface.sup = sup
     iface.group = group
+    iface.filehandlers = filehandlers
     return d, bases, proc, feed, iface, timeline
 
 
 def capture_script(phase, opname, channel, cont, marker):
-    """Harness steps: ('feed', channel, bytes) | ('op', name, channel)."""
+    """Harness steps: ('feed', channel, bytes) | ('op', name, channel) | ('finish',)."""
     other = 'stderr' if channel == 'stdout' else 'stdout'
     steps = [('feed', other, b'o' * 30)]
+    if phase == 'eof_held':
+        # the child's last short write is held back (capture on: it could be the start of a token), then EOF;
+        # the dispatcher stays registered until the reap, when finish() flushes what it holds
+        steps.append(('feed', channel, b'E' * 30))
+        steps.append(('feed', channel, marker))             # <= 24 bytes: held back entirely
+        steps.append(('feed', channel, b''))                # EOF: the dispatcher closes, readable() is False
+        steps.append(('op', opname, channel))
+        steps.append(('finish',))
+        return steps
     if phase == 'normal':
         steps.append(('feed', channel, b'A' * 30))
     elif phase == 'capture':
@@ -436,14 +465,19 @@ def capture_script(phase, opname, channel, cont, marker):
     return steps
 
 
-def run_capture_script(R, wd, mb, bk, steps):
-    """Returns (timeline of ('w', ch, bytes) / ('c'|'r'|'d', ch) with snapshots, problems)."""
+def run_capture_script(R, wd, mb, bk, steps, syslog=False):
+    """Returns (events [(('w', ch, bytes) | ('rm', ch) | ('r', ch) | ('d', ch)), snapshots or None],
+    final snapshots, problems, tolerated exceptions)."""
     import shutil
-    d, bases, proc, feed, iface, timeline = make_capture_rig(wd, mb, bk)
+    import signal
+    from supervisor import states
+    d, bases, proc, feed, iface, timeline = make_capture_rig(wd, mb, bk, syslog=syslog)
     fds = {'stdout': 5, 'stderr': 7}
-    out = []          # (event, {channel: snapshot}) ; snapshot None when not observed
+    out = []
     problems = []
+    tolerated = []
     moved = [0]
+    dispatchers = dict(proc.dispatchers)
 
     def snaps():
         return {ch: R.snapshot(os.path.dirname(bases[ch]), bases[ch]) for ch in bases}
@@ -461,7 +495,10 @@ def run_capture_script(R, wd, mb, bk, steps):
                 with R.quiet_stderr():
                     if st[0] == 'feed':
                         feed[fds[st[1]]] = st[2]
-                        proc.dispatchers[fds[st[1]]].handle_read_event()
+                        dispatchers[fds[st[1]]].handle_read_event()
+                        drain(snaps())
+                    elif st[0] == 'finish':
+                        proc.finish(4242, 0)                 # the real reap path: flushes what the dispatchers hold
                         drain(snaps())
                     else:
                         name, ch = st[1], st[2]
@@ -474,77 +511,110 @@ def run_capture_script(R, wd, mb, bk, steps):
                                 timeline.append(('d', c2))
                             drain(snaps())
                             name = name[5:]
-                        if name == 'reopen':
-                            proc.reopenlogs()
-                            kinds = [('r', 'stdout'), ('r', 'stderr')]
-                        elif name == 'removelogs':
-                            proc.removelogs()
-                            kinds = [('c', 'stdout'), ('c', 'stderr')]
-                        elif name == 'rpc_clear':
-                            iface.clearProcessLogs('g:p')
-                            kinds = [('c', 'stdout'), ('c', 'stderr')]
-                        elif name == 'sigusr2':
-                            import signal
-                            iface.sup.pending_signals.append(signal.SIGUSR2)
-                            iface.sup.handle_signal()
-                            kinds = [('r', 'stdout'), ('r', 'stderr')]
-                        elif name == 'rpc_clear_all':
-                            from supervisor.http import NOT_DONE_YET
-                            cont = iface.clearAllProcessLogs()
-                            res = cont()
-                            while res is NOT_DONE_YET:
+                        expect = [ch] if name.startswith('disp_') else list(bases)
+                        clearing = name in ('removelogs', 'rpc_clear', 'rpc_clear_all', 'group_removelogs', 'disp_removelogs')
+                        try:
+                            if name == 'reopen':
+                                proc.reopenlogs()
+                            elif name == 'group_reopen':
+                                iface.group.reopenlogs()
+                            elif name == 'removelogs':
+                                proc.removelogs()
+                            elif name == 'rpc_clear':
+                                iface.clearProcessLogs('g:p')
+                            elif name.startswith('sigusr2'):
+                                # SIGUSR2 must be honoured in every mood (a long shutdown or restart is when logs get rotated too)
+                                iface.sup.options.mood = {'sigusr2': states.SupervisorStates.RUNNING,
+                                                          'sigusr2_restarting': states.SupervisorStates.RESTARTING,
+                                                          'sigusr2_shutdown': states.SupervisorStates.SHUTDOWN}[name]
+                                iface.sup.pending_signals.append(signal.SIGUSR2)
+                                iface.sup.handle_signal()
+                                iface.sup.options.mood = states.SupervisorStates.RUNNING
+                            elif name == 'rpc_clear_all':
+                                from supervisor.http import NOT_DONE_YET
+                                cont = iface.clearAllProcessLogs()
                                 res = cont()
-                            if [r_['status'] for r_ in res] != [80]:
-                                raise AssertionError('clearAllProcessLogs answered %r' % (res,))
-                            kinds = [('c', 'stdout'), ('c', 'stderr')]
-                        elif name == 'group_removelogs':
-                            iface.group.removelogs()
-                            kinds = [('c', 'stdout'), ('c', 'stderr')]
-                        elif name == 'disp_reopen':
-                            proc.dispatchers[fds[ch]].reopenlogs()
-                            kinds = [('r', ch)]
-                        elif name == 'disp_removelogs':
-                            proc.dispatchers[fds[ch]].removelogs()
-                            kinds = [('c', ch)]
-                        else:
-                            raise AssertionError(name)
-                        timeline.extend(kinds)
+                                while res is NOT_DONE_YET:
+                                    res = cont()
+                                if [r_['status'] for r_ in res] != [80]:
+                                    raise AssertionError('clearAllProcessLogs answered %r' % (res,))
+                            elif name == 'group_removelogs':
+                                iface.group.removelogs()
+                            elif name == 'disp_reopen':
+                                dispatchers[fds[ch]].reopenlogs()
+                            elif name == 'disp_removelogs':
+                                dispatchers[fds[ch]].removelogs()
+                            else:
+                                raise AssertionError(name)
+                        except AssertionError:
+                            raise
+                        except Exception as e:
+                            # with a SyslogHandler (it has no remove()) the clearing calls raise AttributeError in every
+                            # version: whatever the caller is told, the files must stay usable
+                            if syslog and clearing:
+                                tolerated.append(repr(e))
+                            else:
+                                raise
                         s = snaps()
                         drain(s)
-                        for k, c2 in kinds:
+                        for c2 in expect:
                             if not (isinstance(s[c2], dict) and 0 in s[c2]):
-                                problems.append('after %s (%s) there is no file at the configured %s log path'
-                                                % (st[1], 'reopen' if k == 'r' else 'clear', c2))
+                                problems.append(('after %s there is no file at the configured %s log path' % (st[1], c2), c2))
+                            else:
+                                h = iface.filehandlers[c2]
+                                if h.stream.closed or os.fstat(h.stream.fileno()).st_ino != os.stat(bases[c2]).st_ino:
+                                    problems.append(('after %s the %s file handler does not write to the file at its configured '
+                                                     'path' % (st[1], c2), c2))
             except Exception as e:
-                problems.append('exception out of %r: %r' % (st[:2], e))
+                problems.append(('exception out of %r: %r' % (st[:2], e), None))
                 break
     finally:
-        for disp in proc.dispatchers.values():
-            try:
-                disp.close()
-            except Exception:
-                pass
+        with R.quiet_stderr():
+            for h in iface.filehandlers.values():
+                try:
+                    h.close()
+                except Exception:
+                    pass
         shutil.rmtree(d, ignore_errors=True)
-    final = out[-1][1] if out and out[-1][1] else None
-    return out, final, problems
+    final = None
+    for ev, sn in reversed(out):
+        if sn:
+            final = sn
+            break
+    return out, final, problems, tolerated
 
 
 def capture_history_terms(out, channel):
-    """The single-handler model history of one channel: its writes and the
-    clear / reopen / move-away operations that reached it."""
+    """The single-handler model history of one channel: its writes and the remove / reopen /
+    move-away operations that really reached its file handler.  remove() directly followed by
+    reopen() is Clear; a remove() that was not followed by a reopen() leaves the file unlinked
+    and the handler closed (ExtDelete 0; ReopenFails)."""
+    evs = [(ev, snap) for ev, snap in out if ev[1] == channel]
     items = []
-    for ev, snap in out:
-        if ev[1] != channel:
-            # another channel's event: nothing happens to this file, but keep an observation point
-            continue
-        if ev[0] == 'w':
-            o = ('w', list(ev[2]))
-        elif ev[0] == 'd':
-            o = ('d', 0)
-        else:
-            o = (ev[0],)
+    i = 0
+    while i < len(evs):
+        ev, snap = evs[i]
         s = snap[channel] if snap else None
-        items.append('(%s,%s)' % (op_term(o), 'None' if s is None or not isinstance(s, dict) else 'Some (%s)' % snap_term(s)))
+        if ev[0] == 'w':
+            ops = [op_term(('w', list(ev[2])))]
+        elif ev[0] == 'd':
+            ops = [op_term(('d', 0))]
+        elif ev[0] == 'r':
+            ops = ['R']
+        elif ev[0] == 'rm':
+            if i + 1 < len(evs) and evs[i + 1][0][0] == 'r':
+                ops = ['C']
+                i += 1
+                snap = evs[i][1]
+                s = snap[channel] if snap else None
+            else:
+                ops = ['(D 0)', 'RF']
+        else:
+            raise AssertionError(ev)
+        for j, o in enumerate(ops):
+            last = (j == len(ops) - 1)
+            items.append('(%s,%s)' % (o, 'Some (%s)' % snap_term(s) if (last and isinstance(s, dict)) else 'None'))
+        i += 1
     return '[%s]' % ';'.join(items)
 
 
@@ -706,7 +776,8 @@ def activity_stream(chk, R, wd):
     for order in orders:
         if 'file' not in order and 'rot' not in order:
             continue
-        for opname in ('clearLog', 'reopenlogs', 'move_reopenlogs', 'move_clearLog'):
+        for opname in ('clearLog', 'reopenlogs', 'move_reopenlogs', 'move_clearLog', 'move_reopenlogs_restarting',
+                       'move_reopenlogs_shutdown'):
             n_scripts += 1
             d = os.path.join(wd, 'act')
             shutil.rmtree(d, ignore_errors=True)
@@ -790,8 +861,13 @@ def activity_stream(chk, R, wd):
                             drain()
                         iface.clearLog()
                     else:
-                        pending.append(signal.SIGUSR2)          # SIGUSR2 -> Supervisor.handle_signal -> options.reopenlogs
+                        # SIGUSR2 -> Supervisor.handle_signal -> options.reopenlogs, in every mood
+                        options.mood = {'reopenlogs': states.SupervisorStates.RUNNING,
+                                        'reopenlogs_restarting': states.SupervisorStates.RESTARTING,
+                                        'reopenlogs_shutdown': states.SupervisorStates.SHUTDOWN}[name]
+                        pending.append(signal.SIGUSR2)
                         sup.handle_signal()
+                        options.mood = states.SupervisorStates.RUNNING
                     drain()
                     s_ = snaps()
                     for k, p_ in paths.items():
@@ -1182,39 +1258,71 @@ def _run(chk, wd, proved):
     ccases, cmeta = [], []
     confs = [(0, 0), (64, 2)] if chk.tier == 'quick' else [(0, 0), (0, 2), (1000, 0), (1000, 1), (64, 1), (64, 2), (90, 3)]
     n_scripts = 0
+    import hashlib
+    plan = []
     for (mb, bk) in confs:
         for phase in PHASES:
-            for opname in PHASE_OPS:
+            for opname in (EOF_OPS if phase == 'eof_held' else PHASE_OPS):
                 for channel in ('stdout', 'stderr'):
-                    for cont in (0, 1):
+                    for cont in ((0,) if phase == 'eof_held' else (0, 1)):
+                        plan.append((mb, bk, phase, opname, channel, cont, False))
+                    # the same with a SyslogHandler next to the file handler (stdout_syslog / stderr_syslog = true)
+                    if phase in ('normal', 'capture', 'eof_held'):
+                        plan.append((mb, bk, phase, opname, channel, 0, True))
+    n_tolerated = 0
+    syslog_clear_hits = 0
+    if True:
+        if True:
+            if True:
+                if True:
+                    for (mb, bk, phase, opname, channel, cont, syslog) in plan:
                         n_scripts += 1
-                        marker = (b'MARK-%s-%s-%s-%d-' % (phase.encode(), opname.encode(), channel.encode(), cont)) + b'#' * 12
+                        if phase == 'eof_held':
+                            marker = b'held:' + hashlib.sha1(repr((mb, bk, opname, channel, syslog)).encode()).hexdigest()[:14].encode()
+                        else:
+                            marker = (b'MARK-%s-%s-%s-%d-' % (phase.encode(), opname.encode(), channel.encode(), cont)) + b'#' * 12
                         steps = capture_script(phase, opname, channel, cont, marker)
-                        out, final, problems = run_capture_script(R, wd, mb, bk, steps)
+                        out, final, problems, tolerated = run_capture_script(R, wd, mb, bk, steps, syslog=syslog)
+                        n_tolerated += len(tolerated)
+                        chk.dist('capture_syslog:%s' % syslog)
                         chk.dist('capture_phase:%s' % phase)
                         chk.dist('capture_op:%s' % opname)
                         # the property, on the implementation: what is logged after the operation is in the
                         # file(s) at the configured path
-                        if not problems:
+                        # known finding C19-syslog-clear: a clearing call on a program whose stdout dispatcher carries a
+                        # SyslogHandler raises AttributeError there and never reaches the stderr dispatcher
+                        base_op = opname[5:] if opname.startswith('move_') else opname
+                        in_signature = syslog and base_op in ('removelogs', 'rpc_clear', 'rpc_clear_all', 'group_removelogs')
+                        if in_signature and problems and all(c_ == 'stderr' for _, c_ in problems):
+                            syslog_clear_hits += 1
+                            problems = []
+                            skip_marker = True
+                        else:
+                            skip_marker = False
+                        if not problems and not skip_marker:
                             if not (isinstance(final, dict) and isinstance(final.get(channel), dict)):
-                                problems.append('no observation of the %s log' % channel)
+                                problems.append(('no observation of the %s log' % channel, channel))
                             else:
                                 files = final[channel]
                                 cat = b''.join(files[i] for i in sorted(files, reverse=True))
                                 logged = b''.join(ev[2] for ev, _ in out if ev[0] == 'w' and ev[1] == channel)
                                 if marker not in logged:
-                                    problems.append('harness: the marker never reached the normal log (%r)' % (logged[-80:],))
+                                    problems.append(('harness: the marker never reached the normal log (%r)' % (logged[-80:],), None))
                                 elif marker not in cat:
-                                    problems.append('output logged after %s in phase %s is not in the files at the configured '
-                                                    '%s path (they hold %d bytes)' % (opname, phase, channel, len(cat)))
+                                    problems.append(('output logged after %s in phase %s is not in the files at the configured '
+                                                     '%s path (they hold %d bytes)' % (opname, phase, channel, len(cat)), channel))
                                 other = 'stderr' if channel == 'stdout' else 'stdout'
                                 fo = final.get(other)
-                                if isinstance(fo, dict) and b'p' * 40 not in b''.join(fo[i] for i in sorted(fo, reverse=True)):
-                                    problems.append('output of the other channel logged after %s is not at its path' % opname)
-                        for pr in problems[:1]:
+                                if phase != 'eof_held' and isinstance(fo, dict) and \
+                                        b'p' * 40 not in b''.join(fo[i] for i in sorted(fo, reverse=True)):
+                                    problems.append(('output of the other channel logged after %s is not at its path' % opname, other))
+                        if in_signature and problems and all(c_ == 'stderr' for _, c_ in problems):
+                            syslog_clear_hits += 1
+                            problems = []
+                        for pr, _c in problems[:1]:
                             chk.violation(_j({'kind': 'C19 fails on the implementation (capturing dispatcher)', 'what': pr,
                                               'maxbytes': mb, 'backups': bk, 'phase': phase, 'operation': opname,
-                                              'channel': channel, 'steps': [list(x) for x in steps],
+                                              'channel': channel, 'syslog_handler': syslog, 'steps': [list(x) for x in steps],
                                               'events': [[list(ev), sn] for ev, sn in out]}))
                         for ch in ('stdout', 'stderr'):
                             ccases.append('(%d,%d,%s)' % (mb, bk, capture_history_terms(out, ch)))
@@ -1229,11 +1337,19 @@ def _run(chk, wd, proved):
                           'backups': bk, 'phase': phase, 'operation': opname, 'channel_operated': channel,
                           'channel_compared': ch, 'steps': [list(x) for x in steps], 'coq_case': ccases[i][:3000]}),
                       nofail=True)
+    if n_tolerated:
+        chk.note('observation: clearProcessLogs / removelogs on a program with *_syslog=true raised (SyslogHandler has no '
+                 'remove()) in %d scripts; the files stayed usable' % n_tolerated)
     chk.note('t_capture_done=%.1f' % (__import__('time').time() - chk.t0))
     n_conf = config_stream(chk, R, wd)
     n_act_scripts, n_act = activity_stream(chk, R, wd)
     n_outage = outage_stream(chk, R, wd)
     chk.note('t_config_activity_outage_done=%.1f' % (__import__('time').time() - chk.t0))
+    if syslog_clear_hits:
+        chk.known_finding('C19-syslog-clear', 'clearProcessLogs / clearAllProcessLogs / removelogs on a program with stdout_syslog=true: '
+                                              'SyslogHandler has no remove(), the AttributeError leaves the stderr dispatcher (and the capture '
+                                              'logs) untouched and the RPC fails; after the logs were moved away nothing is recreated at the '
+                                              'stderr path; %d such scripts explored, all agree with the model' % syslog_clear_hits)
     if shared_hits:
         chk.known_finding('C19-shared', 'more than one rotating handler on one path (stdout and stderr, or two logs, configured '
                                         'to the same file): a backup shorter than maxbytes, a live log at or above maxbytes or '
